@@ -128,10 +128,15 @@ GetterOps == {o \in OpSet : o.n \in {"get_sprite", "get_cell", "get_rect", "get_
 \*   many-argument setters), then its arguments (RandomElement: exactly one successor, so a run prints
 \*   NSeq histories of MaxSteps operations each).
 \* Mode "rmr": read - modify - read: a random getter, a random operation, THE SAME getter again, then
-\*   random operations (a value remembered from the first read must not survive the modification).
+\*   random operations (a value remembered from the first read must not survive the modification). In every
+\*   second history the modification is drawn from those that the model says change the getter's result.
+\* the modifications that, by the model, change what the getter g returns in memory f (through whichever API:
+\* a sprite read is changed by a map edit in the shared rows, a pixel rectangle by a sprite edit, ...)
+Interfering(f, g) == {o \in OpSet \ GetterOps : Do(Do(f, o).f, g).ret # Do(f, g).ret}
 Next == /\ step < MaxSteps
         /\ \E k \in {RandomElement(Kinds)} :          \* (bound by \E: a LET would re-draw at every use)
            \E op \in {IF Mode = "rmr" /\ step = 0 THEN RandomElement(GetterOps)
+                        ELSE IF Mode = "rmr" /\ step = 1 /\ sid % 2 = 0 /\ Interfering(ov, first) # {} THEN RandomElement(Interfering(ov, first))
                         ELSE IF Mode = "rmr" /\ step = 2 THEN first
                         ELSE RandomElement({o \in OpSet : o.n = k})} :
            \E r \in {Do(ov, op)} :
